@@ -543,6 +543,33 @@ def law_checks_dist(ctx, fs, ex, thorough):
         r, _ = call_dist(method, args)
         return r
 
+    # ---------------- results must not alias internal state: a caller that post-processes a returned tensor IN PLACE must not change
+    # what the same helper returns next time (python-scalar and tensor arguments alike)
+    for method, (argn, _cls) in METHODS.items():
+        cls_, meth = method.split(".")
+        fn = getattr(DIST[cls_], meth)
+        base = {"support": 2.0, "rate": 4.0, "loc": 0.5, "scale": 1.5, "mean": 3.0, "variance": 2.0}
+        vals = [base[a] for a in argn]
+        for kind in ("python-scalars", "tensors"):
+            args = list(vals) if kind == "python-scalars" else [t64(v) for v in vals]
+            case = {"section": "dist-alias", "method": method, "args": vals, "argument_kind": kind}
+            try:
+                r1 = fn(*args)
+                first = [float(v) for v in (r1 if isinstance(r1, tuple) else (r1,))]
+                for v in (r1 if isinstance(r1, tuple) else (r1,)):
+                    if isinstance(v, torch.Tensor) and not v.requires_grad:
+                        v.mul_(0.5).add_(7.0)          # the caller's own in-place post-processing
+                r2 = fn(*(list(vals) if kind == "python-scalars" else [t64(v) for v in vals]))
+                second = [float(v) for v in (r2 if isinstance(r2, tuple) else (r2,))]
+            except Exception as e:  # noqa: BLE001
+                bad("C20:spec:dist:alias:raises", f"{method}({vals}, {kind}) raised {type(e).__name__} in the repeat-call probe", case)
+                continue
+            ex.evaluations += 1
+            pnote("results do not alias internal state")
+            if any(not (a == b or (a != a and b != b)) for a, b in zip(first, second)):
+                bad("C20:spec:dist:alias", f"{method}{tuple(vals)} with {kind} returned {first}; after the caller modified that result in place the "
+                    f"same call returns {second}", dict(case, first=first, second=second))
+
     # ---------------- Poisson
     for (k, l) in poi:
         case = {"section": "dist-law", "dist": "Poisson", "support": k, "rate": l}
